@@ -397,15 +397,32 @@ func waitOutcome(cond func() bool, progress func() int64, fence func() bool) (bo
 
 // fencePing: Ping with the maximum budget; true when the far end answered.
 func fencePing(inst *netceptor.Netceptor, target string) bool {
+	ok, _ := fencePingBounded(inst, target)
+	return ok
+}
+
+// fencePingBounded is fencePing with a bound on the call itself: Ping opens a socket and subscribes it to the node's
+// notices before it looks at its context, so a node whose notice machinery is deadlocked never returns from it.
+// hung = a single Ping call (12 s context, 10 s internal timeout) had not returned after 90 s.
+func fencePingBounded(inst *netceptor.Netceptor, target string) (ok, hung bool) {
 	for i := 0; i < 3; i++ {
-		ctx, cancel := context.WithTimeout(context.Background(), 12*time.Second)
-		_, _, err := inst.Ping(ctx, target, 255)
-		cancel()
-		if err == nil {
-			return true
+		res := make(chan error, 1)
+		go func() {
+			ctx, cancel := context.WithTimeout(context.Background(), 12*time.Second)
+			_, _, err := inst.Ping(ctx, target, 255)
+			cancel()
+			res <- err
+		}()
+		select {
+		case err := <-res:
+			if err == nil {
+				return true, false
+			}
+		case <-time.After(90 * time.Second):
+			return false, true
 		}
 	}
-	return false
+	return false, false
 }
 
 // settle gives the notification pipelines (node broker -> socket filter -> socket broker ->
